@@ -6,7 +6,7 @@ From Verif Require Import Base Value Seq Coll Pool.
 
 Definition ret_eqb (a b : ret) : bool :=
   match a, b with
-  | RUnit, RUnit | RNew, RNew | RPanic, RPanic | RHang, RHang => true
+  | RUnit, RUnit | RNew, RNew | RPanic, RPanic | RHang, RHang | RPartial, RPartial => true
   | RVal x, RVal y => val_eqb x y
   | RBool x, RBool y => Bool.eqb x y
   | RInt x, RInt y => Z.eqb x y
